@@ -48,9 +48,11 @@ func (l *lexer) run() {
 		state = state(l)
 	}
 	close(l.tokens)
+	verifEv("L", "closed", 0, 0, l.inputs)
 }
 
 func (l *lexer) emit(t tokenType) {
+	verifEv("L", "tok", int(t), l.pos+l.posShift, l.inputs)
 	l.tokens <- token{
 		typ: t,
 		val: l.current(),
@@ -60,6 +62,7 @@ func (l *lexer) emit(t tokenType) {
 }
 
 func (l *lexer) emitError(format string, args ...any) {
+	verifEv("L", "tok", int(tERR), l.pos+l.posShift, l.inputs)
 	l.tokens <- token{
 		typ: tERR,
 		err: fmt.Errorf(format, args...),
@@ -80,6 +83,7 @@ func (l *lexer) next() (r rune) {
 	// refill when the window is used up, or ends in the middle of a rune
 	for l.pos >= len(l.input) || !utf8.FullRuneInString(l.input[l.pos:]) {
 		s, ok := <-l.inputs
+		verifEv("L", "recv", len(s), verifB(ok), l.inputs)
 		if !ok {
 			if l.pos == l.start && l.pos >= len(l.input) {
 				l.width = 0
